@@ -123,8 +123,9 @@ MustConnect(cs, ss, certKey, certBits, certCurve, candidates) ==
             LET t == candidates[i] IN
               /\ SuiteAllowed(cs, t, v) /\ SuiteAllowed(ss, t, v) /\ CredServes(certKey, t, v)
               /\ SigOk(cs, ss, certKey, certCurve, t, v)
-              \* finite-field DHE depends on further parameters (dhParams size vs key-size limits): not predicted
-              /\ (v = 4 \/ Kex(t) \in {"rsa", "ecdhe_rsa", "ecdhe_ecdsa"})
+              \* finite-field DHE depends on further parameters (group vs. key-size limits): predicted only where neither
+              \* side restricts its FFDHE groups or key sizes
+              /\ (v = 4 \/ Kex(t) \in {"rsa", "ecdhe_rsa", "ecdhe_ecdsa"} \/ (Kex(t) = "dhe_rsa" /\ v >= 1 /\ cs.dhPlain /\ ss.dhPlain))
               /\ (certBits > 0 => (certBits >= cs.minKey /\ certBits <= cs.maxKey))
               \* an ECDSA certificate must be on a curve the client enables
               /\ (certKey = "ecdsa" => certCurve \in cs.curves)
